@@ -16,7 +16,7 @@ def run():
         "A-NP: D[np.ix_(idx, idx)] selects rows/columns idx; np.asarray(radii)[idx] selects the radii of idx",
         "A-SK: DBSCAN groups (see C01)",
     ]
-    sections_parallel(rep, [("cluster.init", _init), ("cluster.getdim", _getdim), ("merge", _merge), ("clean", _clean), ("localize", _localize), ("pipeline.main", _pipeline_main), ("pipeline.merge", _pipeline_merge)])
+    sections_parallel(rep, [("cluster.init", _init), ("cluster.getdim", _getdim), ("merge", _merge), ("clean", _clean), ("localize", _localize), ("pipeline.main", _pipeline_main), ("pipeline.merge", _pipeline_merge), ("getdistances", _getdistances)])
     return rep
 
 
@@ -92,6 +92,12 @@ def _pipeline(rep, which):
     for f in tmp.functions:
         rep.functions.append(f)
 
+
+
+def _getdistances(rep):
+    """the distance tables handed to the callees are those of the periodic search of the structure (contract of get_distances, shared with C10)"""
+    from props import C10
+    C10._getdistances(rep)
 
 def replay_key(ob):
     return "c13"
